@@ -11,7 +11,8 @@ Executable model of the cover firmware `arduino/cover/cover.ino` (property C19).
   pending" in the sketch, hence a stop at `millis() = 0` is never saved – the model does the same.
 * Interrupts: the encoder ISR runs between loop iterations (`Ev.pulse`) and inside the `delay(100)` of
   `process_direction` (`Ev.delayPulses n`, consumed by the next delay; pulse k of n fires at t0 + k*100/(n+1)), which
-  is where pre-emption matters: the sketch re-reads the volatile `m_direction` after the delay.  `delay(100)` advances
+  is where pre-emption matters (before the fix the sketch re-read the volatile `m_direction` after the delay and lost
+  a STOP raised by the ISR; see `processDirection`).  `delay(100)` advances
   the clock by 100 ms (the loop-local `now` was read before).  Pre-emption between other statements is not modelled.
 * Buttons: the InputDebounce library is not part of the repository; its callbacks are events (`Btn`), delivered where
   `button.process(now)` stands in `loop()`.
@@ -191,7 +192,10 @@ def delayWithPulses (s : St) : St :=
   let s1 := (List.range n).foldl (delayPulse t0 n) { s with dpulses := 0 }
   { s1 with clk := t0 + relayDelayMs }
 
-/-- `process_direction(now)`; the last assignment re-reads the volatile `m_direction` -/
+/-- `process_direction(now)`.  The direction is read at the top; what is stored in `m_previous_direction` at the end is
+that value (`prevDirRereadsVolatile = false`, the sketch since the fix "does not lose a stop raised during the relay
+delay") or the volatile `m_direction` read again after the delay (`true`, the sketch before it) – read from the source
+by the translator. -/
 def processDirection (s : St) (now : Nat) : St :=
   if s.dir ≠ s.prevDir then
     let s1 : St := match s.dir with
@@ -202,7 +206,7 @@ def processDirection (s : St) (now : Nat) : St :=
         let a := delayWithPulses { s with run := .cls, pinOpen := true }
         { a with pinClose := false, prevPos := a.pos, prevTime := now, doStop := 0 }
       | .stop => { s with pinClose := false, pinOpen := false, doStop := now }
-    { s1 with prevDir := s1.dir }
+    { s1 with prevDir := if prevDirRereadsVolatile then s1.dir else s.dir }
   else s
 
 def emergencyStop (s : St) : St :=
